@@ -335,7 +335,7 @@ def gen_tied_case(rng, i, nsg=None, extras=True):
         cmds = [{"k": "add", "regex": ".*", "operation": op, "cfg": pl.UNIFORM[rng.choice(["a8w8", "a8sw8t", "a16w8"])],
                  "alg": "min_max_uniform_quantize"} for op in rng.sample(kinds, rng.randint(1, len(kinds)))]
         return Case(mb, info, cmds=cmds, data=data, desc=[(c["regex"], c["operation"], c["alg"]) for c in cmds])
-    mb, info = gm.gen_tied(rng, nsg=nsg, extras=extras)
+    mb, info = gm.gen_tied(rng, nsg=nsg, extras=extras, shared_bias=0.25 if i % 4 == 2 else 0.0)
     data = gm.random_inputs(mb, rng, n=1)
     names = [n for sc in pl.scopes_of(mb) for n in sc.split(";") if n]
     r = rng.random()
